@@ -1,6 +1,11 @@
 #!/usr/bin/env python3
 """Regenerates /verif/MANIFEST.json from the table below (run after adding a check)."""
-import json, os
+import json, subprocess, os
+
+def hook_commits():
+    out = subprocess.run(['git','-C','/repo','log','--format=%H %s'],capture_output=True,text=True).stdout
+    return [l.split()[0] for l in out.splitlines() if ' verif hooks' in l]
+
 V = os.path.dirname(os.path.dirname(os.path.abspath(__file__)))
 props = [json.loads(l) for l in open(os.path.join(V, 'properties.jsonl'))]
 claims = json.load(open(os.path.join(V, 'tools', 'claims.json')))
@@ -26,9 +31,9 @@ m = {
     "setup_cmd": "cd /verif/govc && GOFLAGS=-mod=mod GOPROXY=off GOSUMDB=off GOTOOLCHAIN=local go build -o ../bin/govc ./cmd/govc",
     "hooks": {
         "guard": "verif",
-        "enable": "go build -tags verif ./... (the only hooks are comment-only contract files geom|rtree|carto/verif_contracts_*.go; govc loads /repo with -tags=verif)",
+        "enable": "go build -tags verif ./... (hooks: the comment-only contract files geom|rtree|carto/verif_contracts_*.go, and the harness/model files geom/verif_harness_twkb.go, geom/verif_harness_wkb.go, rtree/verif_harness_heap.go, all //go:build verif; govc loads /repo with -tags=verif)",
         "baseline_off_cmd": "cd /repo && go test -vet=off -count=1 ./...",
-        "source_commits": claims.get('_hook_commits', []),
+        "source_commits": hook_commits(),
         "add_only": True,
     },
     "engines": [{"name": "govc", "path": "/verif/govc", "serves_properties": [c['property_id'] for c in checks],
